@@ -1391,9 +1391,16 @@ func (x *Exec) storeInstr(s *State, in *ssa.Store) {
 	}
 	if _, isFV := in.Addr.(*ssa.FreeVar); isFV {
 		if fc := x.contractOf(in.Parent()); fc != nil {
-			for i, cl := range fc.clauses("captures") {
-				env := x.specEnvFor(s, "captures")
-				if t, err := env.evalBool(cl.Expr); err == nil {
+			// `captures`: invariants of the captured variables (also checked where the closure is made);
+			// `stores`: what must hold of them after every assignment the closure itself makes
+			for _, kind := range []string{"captures", "stores"} {
+				for i, cl := range fc.clauses(kind) {
+					env := x.specEnvFor(s, "captures")
+					t, err := env.evalBool(cl.Expr)
+					if err != nil {
+						x.unsupported("%s clause of %s at a store: %v", kind, x.p.Names[in.Parent()], err)
+						continue
+					}
 					x.oblige(s, "captures-preserved", x.label(in)+"#"+clauseLabel(cl, i), t, in.Pos(), cl.Props)
 				}
 			}
